@@ -15,6 +15,8 @@ mod cut;
 mod entry;
 mod debugcmd;
 mod hier;
+mod fstw;
+mod pair;
 
 thread_local! {
     pub static LAST_PANIC: std::cell::RefCell<String> = std::cell::RefCell::new(String::new());
@@ -43,6 +45,8 @@ pub fn dispatch(line: &str) -> String {
     }
     match toks[0] {
         "tables" => tables::tables(&toks),
+        "pairfile" => pair::pairfile(&toks),
+        "fstw" => fstw::fstw(&toks),
         "hier" => hier::hier(&toks),
         "dumpfile" => debugcmd::dumpfile(&toks),
         "entryvcd" => entry::entryvcd(&toks),
@@ -87,7 +91,7 @@ fn main() {
             Ok(r) => r,
             Err(_) => LAST_PANIC.with(|p| classify_panic(&p.borrow())),
         };
-        writeln!(out, "{}", reply).unwrap();
+        writeln!(out, "{}", reply.replace('\n', " ").replace('\r', " ")).unwrap();
     }
     out.flush().unwrap();
 }
